@@ -5,7 +5,9 @@ import contracts.omen_loader as oml
 
 PROP = Prop(
     'C11', "Trainer, scorer and guesser agree on every string's OMEN level",
-    functions=[ol.EV + ':find_omen_level', ol.SC + '.parse', oml.IO + ':_load_ngrams#ip', oml.IO + ':_load_ngrams#cp'],
+    functions=[ol.EV + ':find_omen_level', ol.SC + '.parse', oml.IO + ':_load_ngrams#ip', oml.IO + ':_load_ngrams#cp', oml.SC + '._load_omen',
+               # the trainer writes one IP.level line per table entry and one CP.level line per transition (statement slices of save_omen_rules_to_disk)
+               (oml.OFO + ':save_omen_rules_to_disk#ip_writer', oml.install_writer), (oml.OFO + ':save_omen_rules_to_disk#cp_writer', oml.install_writer)],
     lemmas=lambda: ol.agree_lemmas() + oml.lemmas(),
     level='other',
     replay=script_replay('replay/omen.py', default_fn='TRIPLE'),
@@ -21,10 +23,12 @@ PROP = Prop(
                             'transition levels (same stand-in as C10.bounded.enum)')],
     assumptions=[
         'strings are an uninterpreted sort with length/char/slice axioms; dict lookups raise KeyError exactly on absent keys',
-        'the correspondence of the tables (what the trainer writes is what scorer and guesser read) and the smoothing formulas are not under contract: '
-        'they are exercised by the bounded stand-in only',
+        'table correspondence: the IP / CP writers (one line per entry: level TAB n-gram LF) and the guesser\'s and the scorer\'s IP / CP / LN readers are under contract, '
+        'each against the file as a list of lines or written chunks; that reading a line written as a + TAB + b + LF yields the fields a and b (split / rstrip / int / str identities, '
+        'A-CODEC) is not proved but exercised by the bounded stand-in; the EP / LN writers, the config file and the smoothing formulas are not under contract',
     ],
     explanation='Deductive (all strings, all tables): find_omen_level and OmenScorer.parse each return ln + ip + the sum of the transition levels of every n-gram, '
                 'and -1 exactly when the length is out of range or an n-gram is absent (recursive spec functions SumT/OkT, SumS/OkS); lemma level_agree: '
-                'with corresponding tables the two sums and presence predicates coincide. Bounded: the three real components through the real files.',
+                'with corresponding tables the two sums and presence predicates coincide. The tables: the trainer writes one IP.level line per entry and one CP.level line per transition; '
+                'the guesser loads exactly the n-grams of those files grouped by level (and prefix), the scorer maps every listed n-gram to its level. Bounded: the three real components through the real files.',
 )
